@@ -195,6 +195,9 @@ impl M {
 			Op::RunH => (Prio::High, vec![(Ctl::Marker { idx, asynchronous: false }, t)]),
 			Op::RunU => (Prio::Urgent, vec![(Ctl::Marker { idx, asynchronous: false }, t)]),
 			Op::ContinueRaw => (Prio::Normal, vec![(Ctl::Continue, t)]),
+			// only used by the C06 signal side table, never under C09
+			Op::SigVar(_) => (Prio::Normal, vec![(Ctl::Signal, t)]),
+			Op::GStopVar(_) => (Prio::Normal, vec![(Ctl::GracefulStop { sig: SIG_GSTOP }, t)]),
 			Op::SetHook => (Prio::Normal, vec![(Ctl::SetHook, t)]),
 			Op::UnsetHook => (Prio::Normal, vec![(Ctl::UnsetHook, t)]),
 			Op::SetErrH => (Prio::Normal, vec![(Ctl::SetErrH, t)]),
